@@ -7,7 +7,7 @@ from ..cfg import CFG, branch_conditions
 from ..fsmodel import is_name, names_in
 from ..report import Run
 from ..resolve import Resolver
-from ..source import AnalysisError, FuncInfo, norm, walk_no_nested
+from ..source import normalise_locals, AnalysisError, FuncInfo, norm, walk_no_nested
 from .c04 import check_bool_before_int
 from .c11 import interval_from_conditions
 
@@ -290,7 +290,11 @@ def _registry(run: Run, res: Resolver, cm) -> None:
     run.instance("R08.5", cm.loc(parse.node), "an unknown constraint keyword raises ValueError", ok=ok)
     if not ok:
         run.violation("R08.5", cm, parse.qualname, "raise ValueError('Unknown constraint ...')", "an unknown constraint keyword is no longer refused (it would be dropped from the chain)")
-    dc = cm.func("ConstraintChain.detect_conflicts")
+    dc = normalise_locals(cm.func("ConstraintChain.detect_conflicts"), [
+        ("has_req", lambda v: ast.unparse(v).startswith("any(") and "RequiredConstraint" in ast.unparse(v)),
+        ("has_opt", lambda v: ast.unparse(v).startswith("any(") and "OptionalConstraint" in ast.unparse(v)),
+        ("conflicts", lambda v: isinstance(v, ast.List) and not v.elts),
+    ])
     cfg = CFG(dc.node)
     appends = [n for n in cfg.nodes if n.ast is not None and any(isinstance(c, ast.Call) and isinstance(c.func, ast.Attribute) and c.func.attr == "append" and is_name(c.func.value, "conflicts") for c in ast.walk(n.ast))]
     kinds = {"REQ∧OPT": False, "CONST≠CONST": False, "CONST∉ENUM": False}
@@ -318,7 +322,9 @@ def _registry(run: Run, res: Resolver, cm) -> None:
 
 # ---------------------------------------------------------------- R08.6
 def _document_level(run: Run, vm, rule: str = "R08.6") -> None:
-    uf = vm.func("Validator._validate_unknown_fields")
+    uf = normalise_locals(vm.func("Validator._validate_unknown_fields"), [
+        ("unknown", lambda v: isinstance(v, ast.BinOp) and isinstance(v.op, ast.Sub) and isinstance(v.left, ast.Name) and isinstance(v.right, ast.Name)),
+    ])
     cfg = CFG(uf.node)
     members = ["REJECT", "WARN", "IGNORE"]
     appends = [n for n in cfg.nodes if n.ast is not None and any(isinstance(c, ast.Call) and isinstance(c.func, ast.Attribute) and c.func.attr == "append" for c in ast.walk(n.ast))]
@@ -356,7 +362,13 @@ def _document_level(run: Run, vm, rule: str = "R08.6") -> None:
     if not ok:
         run.violation(rule, vm, uf.qualname, "unknown = document_fields - schema_fields", "the set of unknown fields is no longer the plain difference of document and schema field names")
     # fallback to REJECT
-    vs = vm.func("Validator._validate_section")
+    vs = normalise_locals(vm.func("Validator._validate_section"), [
+        ("has_req", lambda v: ast.unparse(v).startswith("any(") and "RequiredConstraint" in ast.unparse(v)),
+        ("present_fields", lambda v: isinstance(v, (ast.DictComp, ast.Dict)) or (isinstance(v, ast.Call) and ast.unparse(v.func) == "dict")),
+        ("value", lambda v: isinstance(v, ast.Call) and isinstance(v.func, ast.Attribute) and v.func.attr == "get" and len(v.args) == 1 and isinstance(v.func.value, ast.Name) and v.func.value.id.startswith("present_fields")),
+        ("field_path", lambda v: isinstance(v, ast.JoinedStr) and ".key" in ast.unparse(v)),
+        ("result", lambda v: isinstance(v, ast.Call) and ast.unparse(v.func).endswith(".constraints.evaluate")),
+    ], [(("field_name", "field_def"), lambda it: ast.unparse(it).endswith(".fields.items()"))])
     cfg = CFG(vs.node)
     fb_ok = False
     default_ok = False
@@ -447,7 +459,10 @@ def _severity(run: Run, res: Resolver) -> None:
 
 # ---------------------------------------------------------------- R08.8
 def _enum_shape(run: Run, cm) -> None:
-    fi = cm.func("EnumConstraint.evaluate")
+    fi = normalise_locals(cm.func("EnumConstraint.evaluate"), [
+        ("value_str", lambda v: isinstance(v, ast.Call) and ast.unparse(v.func) == "str" and len(v.args) == 1),
+        ("matches", lambda v: isinstance(v, ast.ListComp) and "allowed_values" in ast.unparse(v)),
+    ])
     cfg = CFG(fi.node)
     sdefs = [n for n in walk_no_nested(fi.node) if isinstance(n, ast.Assign) and isinstance(n.value, ast.Call) and ast.unparse(n.value) == "str(value)" and isinstance(n.targets[0], ast.Name)]
     svar = sdefs[0].targets[0].id if sdefs else "value_str"
